@@ -64,8 +64,35 @@ def cases(tier):
                 yield (tick, True, p, flag)
 
 
+def strict_cases(tier):
+    """the tick-rounding grid once more under a warnings filter that turns warnings into exceptions (python -W error, pytest's
+    filterwarnings = error): an off-grid order is then either refused altogether or accepted as usual"""
+    for c in cases("quick"):
+        if c[2] is not None and (c[2] % 1 != 0 or c[0] != 1.0):
+            yield c + (True,)
+
+
 def fn(case, wit):
-    tick, exact, p, is_buy = case
+    strict = len(case) == 5
+    tick, exact, p, is_buy = case[:4]
+    if strict:
+        import warnings
+        m = Market(0, _random.Random(0), _Simulator(prng=_random.Random(1)), "m")
+        m.setup({"tickSize": tick, "marketPrice": 100.0})
+        m._update_time(100.0)
+        o = Order(0, 0, is_buy, LIMIT_ORDER, 1, price=p)
+        with warnings.catch_warnings():
+            warnings.simplefilter("error")  # only the submission itself runs under the strict filter
+            try:
+                m._add_order(o)
+            except Warning:
+                if len(m.buy_order_book.priority_queue) + len(m.sell_order_book.priority_queue) != 0 or o.placed_at is not None:
+                    raise Violation("C19.refused_but_booked", "an order whose submission was refused (a warning escalated to an exception) is in the book all the same",
+                                    "tick %r price %r %s" % (tick, p, "buy" if is_buy else "sell"))
+                wit.inc("refused_under_strict_warnings")
+                return ("refused", tick, is_buy)
+        wit.inc("accepted_under_strict_warnings")
+        return _judge(tick, exact, p, is_buy, o.price, wit)
     m = Market(0, _random.Random(0), _Simulator(prng=_random.Random(1)), "m")
     m.setup({"tickSize": tick, "marketPrice": 100.0})
     m._update_time(100.0)
@@ -78,7 +105,10 @@ def fn(case, wit):
         return ("mkt",)
     o = Order(0, 0, is_buy, LIMIT_ORDER, 1, price=p)
     m._add_order(o)
-    a = o.price
+    return _judge(tick, exact, p, is_buy, o.price, wit)
+
+
+def _judge(tick, exact, p, is_buy, a, wit):
     ft, fp, fa = F(tick), F(p), F(a)
     why = None
     if exact:
@@ -284,6 +314,7 @@ def run(tier, seed):
     res = common.Result("C19", tier, seed)
     run_grid(res, "tick_size_through_the_runner", list(runner_cases(tier)), runner_fn, seed)
     run_grid(res, "tick_rounding", list(cases(tier)), fn, seed)
+    run_grid(res, "tick_rounding_under_strict_warnings", list(strict_cases(tier)), fn, seed)
     run_grid(res, "same_price_both_sides", list(seq_cases(tier)), seq_fn, seed)
     run_grid(res, "one_long_lived_market", list(shared_cases(tier)), shared_fn, seed)
     res.coverage["evaluations"] += res.coverage["witness_classes"].get("long_lived_market_submissions", 0)
